@@ -218,6 +218,9 @@ def c01_ops(kind, pv, S, r):
     else:
         ops += [["rt", hx(s)] for s in members]
     ops.append(["exts"])
+    if kind == "PFC":
+        # exact model: the saved image is compared byte for byte (hash for large dictionaries)
+        ops.append(["image"] if len(S) <= 40 else ["save"])
     return ops
 
 
